@@ -88,6 +88,51 @@ UNITS += [
 """),
 ]
 
+UNITS += [
+    Unit(name="ParentResult", file=PA, kind="type", anchor="pub(crate) enum ParentResult<T> {",
+         rewrites=[Rw("", "", count=None, kind="attrs", optional=True, why="derive attributes removed")]),
+    # Parent::process, the arm for files: what a matched parent node contributes (its content, if every chunk is indexed) and what not
+    Unit(name="process_file_reuse", file=PA, kind="block", within="pub(crate) fn process<O>(",
+         anchor="let parent = self.is_parent(&node, &node.name());", block_end="TreeType::Other((path, node, (open, parent)))",
+         block_sig="fn process_file_reuse(this: &VParentP, index: &VIndexP, node0: FNode, path: &PathR) -> (r: (FNode, ParentResult<()>))",
+         block_tail="                (node, parent)",
+         functions=["archiver::parent::Parent::process (arm for files: reuse of the parent's content)"],
+         rewrites=[
+             Rw("self.is_parent(", "this.vis_parent(", why="Parent::is_parent -> stub: its answer is the uninterpreted IS_PARENT (units p_node_lookup / is_parent_predicate)"),
+             Rw(r"(?P<n>\w+)\.content\.iter\(\)\.flatten\(\)\.(?P<q>all|any)\(\|id\| index\.has_data\(id\)\)", r"v\g<q>_data_in_index(&\g<n>.content, index)", regex=True,
+                why="Option::iter().flatten().all/any(|id| index.has_data(id)) -> their definitions over the id list (stubs)"),
+             Rw(r"(?P<a>\w+)\.content\.clone_from\(&(?P<b>\w+)\.content\)", r"\g<a>.content = vclone_content(&\g<b>.content)", regex=True, why="Option<Vec<DataId>>::clone_from -> assignment of a clone"),
+             Rw(r"\.map\(\|_\| \(\)\)", ".vunit()", regex=True, why="ParentResult::map(|_| ()) -> proved helper: the kind of the answer"),
+         ],
+         hints=[("before", "let parent = this.vis_parent(", "                let mut node = node0;")],
+         contract="""
+    ensures
+        // content is taken from the parent only for a node the parent rule accepts AND only if every one of its chunks is in the index
+        /*@content_reused_only_from_a_matching_parent_with_all_chunks_indexed*/ r.1 is Matched ==> IS_PARENT(*this, node0) is Matched
+            && all_chunks_indexed(IS_PARENT(*this, node0)->Matched_0.content_view(), *index)
+            && r.0.content_view() == IS_PARENT(*this, node0)->Matched_0.content_view(),
+        // a file that is not reused keeps what it had (it is read again by the caller)
+        /*@file_not_reused_is_left_untouched*/ !(r.1 is Matched) ==> r.0.content_view() == node0.content_view(),
+        // nothing but the content ever comes from the parent: name, type and metadata are the current ones
+        /*@node_keeps_its_own_name_type_and_metadata*/ r.0.rest == node0.rest,
+"""),
+]
+
+UNITS += [
+    # leaving a directory restores exactly the parent trees that were current when it was entered (set_dir pushed them)
+    Unit(name="finish_dir", file=PA, anchor="fn finish_dir(&mut self) -> Result<(), TreeStackEmptyError>", within="impl Parent {", ret_name="r",
+         wrap_open="impl ParentW {", wrap_close="}",
+         functions=["archiver::parent::Parent::finish_dir"],
+         contract="""
+    ensures
+        /*@leaving_a_directory_restores_the_trees_of_its_parent*/ old(self).stack@.len() > 0 ==> r is Ok
+            && final(self).trees == old(self).stack@[old(self).stack@.len() - 1]
+            && final(self).stack@ == old(self).stack@.drop_last(),
+        old(self).stack@.len() == 0 ==> r is Err,
+        final(self).ignore_ctime == old(self).ignore_ctime && final(self).ignore_inode == old(self).ignore_inode,
+"""),
+]
+
 M = "archiver::parent::verif_kani::"
 KANI = [
     Harness(M + "c11_is_parent_requires_equal_metadata", kind="bounded",
@@ -106,6 +151,6 @@ KANI_ASSUMPTIONS = [
 ]
 META = {"not_covered": [
     "equality of the resulting tree with a full backup (composition through the archiver)",
-    "which snapshots become parents (group / latest selection in ParentOptions::get_parent: iterator adapters; the wiring of the two comparison switches IS a unit), set_dir/finish_dir stack handling, several parent trees",
+    "which snapshots become parents (group / latest selection in ParentOptions::get_parent: iterator adapters; the wiring of the two comparison switches IS a unit), set_dir (iterator chains loading the sub-trees; finish_dir IS a unit), several parent trees",
     "the unchanged-tree short cut in tree_archiver.rs backup_tree",
 ]}
